@@ -1,11 +1,17 @@
-(* C05 — BMS writing.  Property theorems only: each closed by [exact] from Proofs/BMSProofs.v, table obligations and
+(* C05 — BMS writing.  Property theorems only: each closed by [exact] from Proofs/BMS*Proofs.v, table obligations and
    concrete witnesses by vm_compute.
-   The whole-file statement  "the lines bms_write produces for a well-formed chart denote that chart"  is FALSE of the
-   faithful model for tempos with more than three decimals (witness below = known finding).  Under the guard it is
-   checked on every run by correspondence + oracle (Corr/RunC05.v) but NOT proved: bms_write_denotes is open. *)
+   Whole file: C05_bms_write_denotes -- for every layout satisfying the layout obligations and every chart of the
+   decidable domain write_dom, BMSMap.write succeeds and the written lines denote the chart (every hit, hold head, LN tail
+   and tempo object exactly once at its own position; times exact on the snap grid and within 1/192 beat otherwise; tempo
+   changes, header fields and WAV table reproduced).  C05_bms_write_read composes it with C04's text-level read theorem:
+   BMSMap.read (BMSMap.write c) is c whenever the written text lies in the reader's text-level domain.
+   Without the ':.3f' guard of write_dom the statement is FALSE of the faithful model (C05_write_denotes_refuted_3f =
+   known finding bpm-3f-rounding). *)
 From Coq Require Import ZArith QArith Qround Qabs List Bool.
 From RV Require Import Base.PyNum Timing.Snapper Timing.Snap Timing.TimingMap Timing.Reseat Timing.Integrate
-  Formats.BMSText Formats.BMS Formats.BMSSpec Generated.Tables Proofs.BMSProofs.
+  Formats.BMSText Formats.BMS Formats.BMSSpec Timing.Domain Timing.Domain2 Generated.Tables Proofs.BMSProofs Proofs.BMSWriteProofs
+  Proofs.BMSWriteLaneProofs Proofs.BMSWriteFinalProofs Proofs.BMSRoundTripProofs.
+From Coq Require Import Sorting.Permutation.
 Import ListNotations.
 Open Scope Z_scope.
 
@@ -98,6 +104,55 @@ Theorem C05_no_merge : forall (rows : list wslot) (L : nat) (out : list text),
   length (filter (fun t => negb (text_eqb t PAIR00)) out) = length rows.
 Proof. exact fill_slots_no_merge. Qed.
 
+(* ---- the note section as a whole (Proofs/BMSWriteProofs.v): the lines assembled from a row table hold, as objects of
+   the format, exactly the rows -- every row once at its own measure, channel and measure fraction, nothing merged, nothing
+   dropped -- whenever the rows are well-formed and pairwise at different (measure, channel, fraction) ---- *)
+Theorem C05_write_note_lines_objs : forall rows : list wrow,
+  Forall row_wf rows -> NoDup (map row_key rows) ->
+  exists ls, write_note_lines rows = Some ls
+             /\ Permutation (flat_map objs_of_line ls) (map row_obj rows)
+             /\ Forall (fun l => exists m ch data, data_line l = Some (m, ch, data)) ls.
+Proof. exact write_note_lines_objs. Qed.
+(* ---- one lane (Proofs/BMSWriteLaneProofs.v): ANY listing of the objects of a set of hits and (head, LNOBJ tail) pairs
+   -- positions pairwise distinct, head before tail, nothing of the lane strictly inside a pair -- is read by the
+   reference interpreter (time order, a tail closes the object just before it) to exactly those hits and pairs ---- *)
+Theorem C05_lane_pairs : forall (lnobj : text) (items : list item),
+  Forall (item_ok lnobj) items ->
+  no_dup_by same_pos (flat_map item_objs items) = true ->
+  (forall hd tl o, In (IHold hd tl) items -> In o (flat_map item_objs items) -> ~ (obj_lt hd o = true /\ obj_lt o tl = true)) ->
+  forall mine, Permutation mine (flat_map item_objs items) ->
+  exists hs ls, pair_ln lnobj None (sort_by obj_lt mine) = Some (hs, ls)
+                /\ Permutation hs (hits_of items) /\ Permutation ls (holds_of items).
+Proof. exact lane_pairs. Qed.
+
+(* ---- bms_write_denotes (Proofs/BMSWriteFinalProofs.v).  For every layout and every chart of write_dom (decidable):
+   layout obligations; wf_wchart at tolerance 0 (the quantifier + format guards: first tempo point at 0, 4/4 on measure
+   lines, measure < 1000, < 1295 tempo points, no two objects of a lane in one grid slot, nothing inside a hold of its
+   lane, ids base-36 other than 00 / LNOBJ); tempo_dom (tempo list in time order, in reduced fractions the millisecond
+   form of a script of C10's on-grid domain); metronome 4 and tempos that ':.3f' prints without loss; one-word misc keys.
+   Whatever str(float) prints for '#BPM' (any rendering r that parses as a decimal): the write succeeds, bms_denote accepts
+   the lines, and written_denotes holds: hits and holds as multisets, column exactly, the time within 1/192 beat of the
+   in-memory time and EQUAL to it on the snap grid (C10's time_on_gridb), the sample registered under the written id, the
+   tempo changes at the in-memory times with the in-memory tempos, title / artist / level / LNOBJ / WAV table / misc. ---- *)
+Theorem C05_table_ok : table_ok (1 # 96) tbl = true.
+Proof. vm_compute. reflexivity. Qed.
+Theorem C05_bms_write_denotes : forall (mk : Z) (lay : layout) (dflt : text) (c : wchart) (r : Q -> text),
+  write_dom tbl mk lay dflt c = true -> (forall q, parse_decimal (r q) <> None) ->
+  exists ls l d, bms_write tbl lay dflt c = Some ls /\ wscript tbl c = Some l
+    /\ bms_denote lay (map (render_with r) ls) = Some d /\ written_denotes tbl dflt c l d.
+Proof. exact (bms_write_denotes tbl C05_table_ok). Qed.
+(* ---- bms_write_read = C05_bms_write_denotes composed with C04's text-level read theorem: whenever the written text lies
+   in the reader's text-level domain (text_domb and read_guards, both decidable on the written lines) and BMSMap.read
+   returns a chart, it is the chart written (read_back: rows as multisets, times within 1/192 beat and exact on the grid,
+   header fields and WAV table exactly) ---- *)
+Theorem C05_bms_write_read : forall (mk : Z) (lay : layout) (dflt : text) (c : wchart) (r : Q -> text),
+  write_dom tbl mk lay dflt c = true -> (forall q, parse_decimal (r q) <> None) ->
+  exists ls l d, bms_write tbl lay dflt c = Some ls /\ wscript tbl c = Some l
+    /\ bms_denote lay (map (render_with r) ls) = Some d /\ written_denotes tbl dflt c l d
+    /\ forall c', text_domb lay (map (render_with r) ls) = true -> read_guards tbl (map (render_with r) ls) = true ->
+                  bms_read tbl lay mk (map (render_with r) ls) = Some c' -> read_back tbl dflt c l c'.
+Proof. exact (bms_write_read tbl C05_table_ok). Qed.
+
 (* ---- the whole-file statement is refuted: '#BPMxx' is printed with ':.3f' (133.3333333 -> 133.333), the written
    tempo timeline is not the chart's and the note at measure 100 denotes 180000.45 ms instead of 180000 ---- *)
 Definition w_bad : wchart := (mkW [(mkHit 0%Z (240000000000000#1333333333) (tx[])%Z)] [] [(mkBco (1333333333#10000000) 4 (0#1))] [] (tx[L[90;90]])%Z (tx[L[116]])%Z (tx[L[97]])%Z (tx[L[49]])%Z []).
@@ -124,4 +179,25 @@ Example C05_nonvacuous :
      | Some ls => c05_specb 0 tbl lay_BME w_good (map render_wline ls) && (9 <? Z.of_nat (length ls))
      | None => false
      end = true.
+Proof. vm_compute. reflexivity. Qed.
+
+(* ---- non-vacuity of write_dom: the chart above lies in the theorem's domain under BME and under a non-BME layout (PMS);
+   the witness of the known finding does not (the ':.3f' guard is what excludes it); the file written under PMS lies in
+   the reader's text-level domain and is read back (6 hits, 2 holds, the two tempo points) ---- *)
+Definition lay_PMS : layout := Tables.bms.layout_PMS.
+Example C05_write_dom_nonvacuous :
+  write_dom tbl Tables.bms.max_keys lay_BME DFLT w_good && write_dom tbl Tables.bms.max_keys lay_PMS DFLT w_good
+  && negb (write_dom tbl Tables.bms.max_keys lay_BME DFLT w_bad) && forallb bpm_3f_ok (w_bpms w_good) && negb (forallb bpm_3f_ok (w_bpms w_bad)) = true.
+Proof. vm_compute. reflexivity. Qed.
+Example C05_round_trip_nonvacuous :
+  match bms_write tbl lay_PMS DFLT w_good with
+  | Some ls =>
+      let lines := map render_wline ls in
+      text_domb lay_PMS lines && read_guards tbl lines
+      && match bms_read tbl lay_PMS Tables.bms.max_keys lines with
+         | Some c' => (length (c_hits c') =? 6)%nat && (length (c_holds c') =? 2)%nat && (length (c_bpms c') =? 2)%nat
+         | None => false
+         end
+  | None => false
+  end = true.
 Proof. vm_compute. reflexivity. Qed.
